@@ -139,6 +139,11 @@ PATTERN_SETS = [
     ("nomatch",),
     ("*$*",),
     ("*k*",),
+    # shapes without a leading '*': the literal text must start at the beginning of the path
+    ("test",),
+    ("r/test*",),
+    ("ab.py", "c(1)"),
+    ("symfs/r/c(1)*", "mytest.py"),
 ]
 
 
